@@ -9,6 +9,11 @@ which the token list means what the syntax tree says (what may follow a command,
 element may not start with inside a group, ...). Each condition is read off the reader; the
 completeness theorem (`TexSoupProofs/Complete`, `Properties/C02`) shows that they suffice.
 
+Restriction: an environment name is ONE token between the braces of `\begin{..}` / `\end{..}`
+(`NameArg`; the reader accepts any brace group there and compares `strip` of its serialised
+contents). Argument runs are described completely, for open and for fixed signatures (including
+the continuation `\section{a}[b]`, `runOK`).
+
 Everything here is computable (it is also executed against the implementation).
 -/
 namespace TexSoup.Gram
@@ -162,9 +167,12 @@ brace group – `a3` more brackets starting tight, then `a4` more braces startin
  * ends with `a2`: the next token is not `[`, and not `{` after an optional spacer;
  * ends with `a3`: not `[` after an optional spacer, and the next token is not `{`;
  * ends with `a4`: not `{` after an optional spacer (a `[` is *not* absorbed any more).
-Fixed signature (both non-negative): at most `optional` brackets, exactly `required` brace
-groups; if optional arguments were left out, the next token must not be `[` (after an
-optional spacer, if there is no required argument either). -/
+Fixed signature (both non-negative): `a1` brackets, exactly `required` brace groups `a2`, and –
+only directly after a brace group – `a3` more brackets starting tight (the continuation of
+`read_args`: `\section{a}[b]`), at most `optional` brackets in all; no `a4` (no required argument
+is left for the fourth phase). If optional arguments were left out, the next token must not be
+`[`: after `a3` after an optional spacer; without `a3` directly, and after an optional spacer if
+there is no required argument either. -/
 def runOK (sg : Int × Int) (a1 a2 a3 a4 : List Arg) (nx : List Tok) : Bool :=
   if sg.1 < 0 && sg.2 < 0 then
     tight a3 && tight a4 &&
@@ -176,9 +184,12 @@ def runOK (sg : Int × Int) (a1 a2 a3 a4 : List Arg) (nx : List Tok) : Bool :=
      | _ :: _, _ :: _, _ :: _ => hdCat (afterSp nx) != some .GroupBegin
      | _, _, _ => false)
   else if 0 ≤ sg.1 && 0 ≤ sg.2 then
-    a3.isEmpty && a4.isEmpty && decide ((a1.length : Int) ≤ sg.2) && decide ((a2.length : Int) = sg.1) &&
-    (decide ((a1.length : Int) = sg.2) ||
-      (hdCat nx != some .BracketBegin && (!a2.isEmpty || hdCat (afterSp nx) != some .BracketBegin)))
+    a4.isEmpty && tight a3 && (a3.isEmpty || !a2.isEmpty)
+    && decide ((a1.length : Int) + a3.length ≤ sg.2) && decide ((a2.length : Int) = sg.1) &&
+    (decide ((a1.length : Int) + a3.length = sg.2) ||
+      (if a3.isEmpty then
+        hdCat nx != some .BracketBegin && (!a2.isEmpty || hdCat (afterSp nx) != some .BracketBegin)
+       else hdCat (afterSp nx) != some .BracketBegin))
   else false
 
 /-! ### well-formedness -/
